@@ -525,6 +525,13 @@ class Interp:
         if isinstance(f, ClassRef) and f.cls.qual in self.watch_constructors:
             return Built(f.cls, tuple(args), tuple(sorted(kwargs.items())))
         if isinstance(f, ClassRef) and f.cls.qual in self.constructible:
+            if not any(isinstance(k_.own.get('__init__'), ast.FunctionDef) for k_ in f.cls.mro):
+                names_ = [fld.name for fld in self.table.fields(f.cls)]
+                if len(args) > len(names_) or any(k_ not in names_ for k_ in kwargs):
+                    raise Raised('TypeError', node)
+                attrs_ = dict(zip(names_, args))
+                attrs_.update(kwargs)
+                return Obj(f.cls, attrs_)
             return self.construct(f.cls, *args, **kwargs)
         if isinstance(f, ClassRef):
             names = self._record_fields(f.cls)
@@ -1168,7 +1175,13 @@ class Interp:
         elif isinstance(st, ast.Return):
             raise _Return(self.eval(st.value, env) if st.value is not None else None)
         elif isinstance(st, ast.If):
-            self.exec_block(st.body if self.truth(self.eval(st.test, env)) else st.orelse, env)
+            try:
+                t_ = self.truth(self.eval(st.test, env))
+            except Undecided as exc:
+                if 'line ' not in str(exc):
+                    raise Undecided(f'{exc} (line {getattr(st, "lineno", "?")}: if {ast.unparse(st.test)[:60]})') from None
+                raise
+            self.exec_block(st.body if t_ else st.orelse, env)
         elif isinstance(st, ast.For):
             broke = False
             for v in self.iterate(self.eval(st.iter, env)):
@@ -1199,6 +1212,13 @@ class Interp:
             if st.exc is not None:
                 e = st.exc.func if isinstance(st.exc, ast.Call) else st.exc
                 name = (dotted(e) or 'Exception').split('.')[-1]
+                found_, bound_ = env.lookup(name)
+                if found_ and isinstance(bound_, str) and bound_.startswith('exception:'):
+                    name = bound_[10:]  # `raise exc` of a caught exception
+            else:
+                found_, cur_ = env.lookup('__handling__')
+                if found_ and cur_:
+                    name = cur_  # bare raise inside a handler
             raise Raised(name, st)
         elif isinstance(st, ast.Assert):
             try:
@@ -1228,8 +1248,13 @@ class Interp:
                         names = [(dotted(x) or '').split('.')[-1] for x in (h.type.elts if isinstance(h.type, ast.Tuple) else [h.type])]
                     if h.type is None or e.name in names or 'Exception' in names or 'BaseException' in names:
                         if h.name:
-                            env.vars[h.name] = UNK
-                        self.exec_block(h.body, env)
+                            env.vars[h.name] = 'exception:' + e.name
+                        prev_ = env.vars.get('__handling__')
+                        env.vars['__handling__'] = e.name
+                        try:
+                            self.exec_block(h.body, env)
+                        finally:
+                            env.vars['__handling__'] = prev_
                         break
                 else:
                     raise
